@@ -151,10 +151,10 @@ AcceptAbort(r, res) == res.kind = "raised" /\ AcceptRetW(r, res, FALSE)
 SigintSend == /\ AllowSigint /\ phase[1] = "running" /\ ~sigint
               /\ sigint' = TRUE
               /\ UNCHANGED <<phase, guard, pst, starts, endhow, cleanleft, adoptret, shut, result, xst, h>>
-\* shutdown() may be called again after it has returned (also after accept() has ended): it
-\* then has nothing to do and returns
+\* shutdown() may be called after accept() has ended, and again after it has returned: it then
+\* has nothing to do and returns
 ShutdownCall == /\ AllowShutdown
-                /\ \/ shut = "none" /\ phase[1] = "running"
+                /\ \/ shut = "none" /\ phase[1] \in {"running", "ended"}
                    \/ shut = "returned" /\ phase[1] = "ended"
                 /\ shut' = "called"
                 /\ UNCHANGED <<phase, guard, pst, starts, endhow, cleanleft, adoptret, sigint, result, xst, h>>
